@@ -596,9 +596,23 @@ def run_check(prop: Prop, tier: str, seed: int) -> int:
                     pass
 
         # 5. failure protocol ----------------------------------------------------------
+        unknown = []
+        known_case_idx = set()
+        for i, f in oracle_fail:
+            kf = match_finding(pid, f, findings)
+            if kf is not None:
+                known_hits[kf["id"]] = known_hits.get(kf["id"], 0) + 1
+                known_case_idx.add(i)
+            else:
+                unknown.append((i, f))
+        # a model/implementation difference on a case that exhibits a recorded known finding is that finding, not a new one
+        if corr_broken and corr_broken.get("what") == "model and implementation differ":
+            bad_cases = [i for i in bad_cases if i not in known_case_idx]
+            corr_broken = {"what": "model and implementation differ", "n": len(bad_cases)} if bad_cases else None
+
         search_done = 0
-        if (proof_broken or corr_broken) and not oracle_fail:
-            # oracle on the differing cases was already done above; fresh search budget
+        if (proof_broken or corr_broken) and not unknown:
+            # the oracle already ran on every case of this run; spend a fresh search budget
             budget = prop.SEARCH_BUDGET.get(tier, 2000)
             srng = random.Random(seed + 7919)
             for c in prop.search_cases(srng, budget):
@@ -611,20 +625,14 @@ def run_check(prop: Prop, tier: str, seed: int) -> int:
                     fs = prop.oracle(c, o)
                 except Exception:
                     fs = []
+                fs = [f for f in fs if match_finding(pid, f, findings) is None]
                 if fs:
                     cases.append(c)
                     obs_list.append(o)
                     for f in fs:
                         oracle_fail.append((len(cases) - 1, f))
+                        unknown.append((len(cases) - 1, f))
                     break
-
-        unknown = []
-        for i, f in oracle_fail:
-            kf = match_finding(pid, f, findings)
-            if kf is not None:
-                known_hits[kf["id"]] = known_hits.get(kf["id"], 0) + 1
-            else:
-                unknown.append((i, f))
 
         for kid, n in sorted(known_hits.items()):
             kf = next(f for f in findings if f["id"] == kid)
